@@ -34,6 +34,10 @@ def materialise(path, blocks, placement, rng, coin='bitcoin', h0=0, decoys=(), e
     offs = {}
     for f in afiles:
         real = fileno[f]
+        if xor_key and pad and len(xor_key) >= 4 and f % 2 == 0:
+            # foreign bytes in front of the first block that, once obfuscated, read as the network magic: the first bytes of a file
+            # say nothing about whether it is obfuscated (xor.dat does)
+            d.raw(real, bytes(a ^ b for a, b in zip(struct.pack('<I', d.magic), xor_key[:4])) + rng.randbytes(12))
         for s, kind, i in sorted(per_file.get(f, [])):
             if pad:
                 g = rng.randbytes(rng.choice([0, 0, 1, 3, 17, 64]))
